@@ -145,40 +145,152 @@ func c17Refuse(c *Ctx) *RuleResult {
 			r.ok(u.Name()+"|never-ok", posOf(p, u.Decl), "no successful return")
 		}
 	}
-	// size change refused
-	u := p.Unit(virtualPkg, "blobAccessCASFile.virtualSetAttributesCommon")
-	refused := false
-	ast.Inspect(u.Decl.Body, func(n ast.Node) bool {
-		ifs, ok := n.(*ast.IfStmt)
-		if !ok || ifs.Init == nil {
-			return true
-		}
-		as, ok := ifs.Init.(*ast.AssignStmt)
-		if !ok || len(as.Rhs) != 1 || !strings.HasSuffix(exprStr(as.Rhs[0]), ".GetSizeBytes()") {
-			return true
-		}
-		if exprStr(ifs.Cond) == exprStr(as.Lhs[1]) && terminates(u.Info(), ifs.Body.List) {
-			if ret, ok := ifs.Body.List[len(ifs.Body.List)-1].(*ast.ReturnStmt); ok && exprStr(ret.Results[0]) != "StatusOK" {
-				refused = true
-			}
-		}
-		return true
-	})
-	if refused {
-		r.ok(u.Name()+"|size", posOf(p, u.Decl), "a size change is refused")
-	} else {
-		r.bad(c.Prop, u.Name()+"|size", posOf(p, u.Decl), "setting the size of a CAS-backed file is not refused")
-	}
-	common := p.LookupFunc(virtualPkg, "blobAccessCASFile.virtualSetAttributesCommon")
+	// size change refused: the decision function is found from the two VirtualSetAttributes methods
+	// (it may be the shared helper itself or something the helper delegates to)
 	for _, tn := range []string{"regularBlobAccessCASFile", "executableBlobAccessCASFile"} {
 		su := p.Unit(virtualPkg, tn+".VirtualSetAttributes")
-		first, ok := su.Decl.Body.List[0].(*ast.IfStmt)
-		okS := false
-		if ok && first.Init != nil {
-			if as, ok := first.Init.(*ast.AssignStmt); ok && len(as.Rhs) == 1 {
-				if call, ok := ast.Unparen(as.Rhs[0]).(*ast.CallExpr); ok && calleeOf(su.Info(), call) == common && terminates(su.Info(), first.Body.List) {
-					okS = true
+		reach := staticReach(p, []ast.Node{su.Decl.Body}, su.Info())
+		var deciders []*FuncUnit
+		cands := []*FuncUnit{su}
+		returnsStatus := func(fn *types.Func) bool {
+			res := fn.Type().(*types.Signature).Results()
+			for i := 0; i < res.Len(); i++ {
+				if namedIs(res.At(i).Type(), modPath+"/"+virtualPkg, "Status") {
+					return true
 				}
+			}
+			return false
+		}
+		for fn := range reach {
+			if hu := p.UnitOf(fn); hu != nil && fn.Pkg() == su.Fn.Pkg() && returnsStatus(fn) {
+				cands = append(cands, hu)
+			}
+		}
+		for _, hu := range cands {
+			has := false
+			ast.Inspect(hu.Decl.Body, func(n ast.Node) bool {
+				if call, ok := n.(*ast.CallExpr); ok {
+					if sel, ok := ast.Unparen(call.Fun).(*ast.SelectorExpr); ok && sel.Sel.Name == "GetSizeBytes" {
+						has = true
+					}
+				}
+				return true
+			})
+			if has {
+				deciders = append(deciders, hu)
+			}
+		}
+		refused, dominated := false, len(deciders) > 0
+		for _, du := range deciders {
+			dinfo := du.Info()
+			g := NewFuncCFG(dinfo, du.Decl.Body)
+			var sizeCall ast.Node
+			var okVar types.Object
+			ast.Inspect(du.Decl.Body, func(n ast.Node) bool {
+				as, ok := n.(*ast.AssignStmt)
+				if !ok || len(as.Rhs) != 1 || len(as.Lhs) != 2 {
+					return true
+				}
+				if call, ok := ast.Unparen(as.Rhs[0]).(*ast.CallExpr); ok {
+					if sel, ok := ast.Unparen(call.Fun).(*ast.SelectorExpr); ok && sel.Sel.Name == "GetSizeBytes" {
+						sizeCall = call
+						if id, ok := as.Lhs[1].(*ast.Ident); ok {
+							okVar = dinfo.ObjectOf(id)
+						}
+					}
+				}
+				return true
+			})
+			ast.Inspect(du.Decl.Body, func(n ast.Node) bool {
+				ret, ok := n.(*ast.ReturnStmt)
+				if !ok || len(ret.Results) != 1 || enclosingFuncLit(du.Decl.Body, ret) != nil {
+					return true
+				}
+				isOK := strings.HasSuffix(exprStr(ret.Results[0]), "StatusOK")
+				if isOK && (sizeCall == nil || !g.Dominates(sizeCall, ret)) {
+					dominated = false
+				}
+				if !isOK && okVar != nil {
+					for _, gd := range flattenGuards(GuardsOf(dinfo, du.Decl.Body, ret)) {
+						if id, ok := ast.Unparen(gd.Cond).(*ast.Ident); ok && gd.Pos && dinfo.ObjectOf(id) == okVar {
+							if _, isStatusConst := dinfo.Uses[lastIdentOf(ret.Results[0])].(*types.Const); isStatusConst {
+								refused = true
+							}
+						}
+					}
+				}
+				return true
+			})
+		}
+		if refused {
+			r.ok(su.Name()+"|size", posOf(p, su.Decl), "a size change is refused")
+		} else {
+			r.bad(c.Prop, su.Name()+"|size", posOf(p, su.Decl), "setting the size of a CAS-backed file is not refused")
+		}
+		if dominated {
+			r.ok(su.Name()+"|size-before-accept", posOf(p, su.Decl), "every accepting return of the decision comes after the size test")
+		} else {
+			r.bad(c.Prop, su.Name()+"|size-before-accept", posOf(p, su.Decl), "the request can be accepted on a path that never looked at the requested size: a set-attributes call combining a mode and a size truncates an immutable file")
+		}
+		// the verdict is obeyed: a literal success return of the method itself comes after a call
+		// that leads to the decision, whose result is not thrown away
+		leads := map[*types.Func]bool{}
+		for _, du := range deciders {
+			leads[du.Fn] = true
+		}
+		for changed := true; changed; {
+			changed = false
+			for _, hu := range cands {
+				if leads[hu.Fn] {
+					continue
+				}
+				for fn := range staticReach(p, []ast.Node{hu.Decl.Body}, hu.Info()) {
+					if leads[fn] {
+						leads[hu.Fn] = true
+						changed = true
+					}
+				}
+			}
+		}
+		okS := true
+		sinfo := su.Info()
+		sg := NewFuncCFG(sinfo, su.Decl.Body)
+		var verdictCalls []ast.Node
+		ast.Inspect(su.Decl.Body, func(n ast.Node) bool {
+			if es, ok := n.(*ast.ExprStmt); ok {
+				if call, ok := es.X.(*ast.CallExpr); ok && leads[calleeOf(sinfo, call)] {
+					okS = false // verdict discarded
+				}
+			}
+			if call, ok := n.(*ast.CallExpr); ok && calleeOf(sinfo, call) != nil && leads[calleeOf(sinfo, call)] {
+				verdictCalls = append(verdictCalls, call)
+			}
+			return true
+		})
+		if len(verdictCalls) == 0 && !leads[su.Fn] {
+			okS = false
+		}
+		ast.Inspect(su.Decl.Body, func(n ast.Node) bool {
+			ret, ok := n.(*ast.ReturnStmt)
+			if !ok || len(ret.Results) != 1 || enclosingFuncLit(su.Decl.Body, ret) != nil || !strings.HasSuffix(exprStr(ret.Results[0]), "StatusOK") {
+				return true
+			}
+			dom := false
+			for _, vc := range verdictCalls {
+				if sg.Dominates(vc, ret) {
+					// ... and the verdict's failure leaves first
+					dom = true
+				}
+			}
+			if !dom {
+				okS = false
+			}
+			return true
+		})
+		// the original shape additionally pins "refusal returns before anything else"
+		if first, ok := su.Decl.Body.List[0].(*ast.IfStmt); ok && first.Init != nil && len(verdictCalls) > 0 {
+			if as, ok := first.Init.(*ast.AssignStmt); ok && len(as.Rhs) == 1 && ast.Unparen(as.Rhs[0]) == ast.Expr(verdictCalls[0].(*ast.CallExpr)) && !terminates(sinfo, first.Body.List) {
+				okS = false
 			}
 		}
 		if okS {
@@ -423,4 +535,15 @@ func init() {
 		Assumptions: []string{"handle-allocator wrappers only forward through the embedded interface", "path.NewComponent and digest parsing are correct"},
 		Rules:       []RuleFunc{c17NoWriter, c17Refuse, c17Validate, c17CacheKey, freshMkdir, c17IdentityFields, c17KeyParam, c17KeyComplete},
 	})
+}
+
+// lastIdentOf: the identifier an expression like pkg.Name or Name ends in.
+func lastIdentOf(e ast.Expr) *ast.Ident {
+	switch x := ast.Unparen(e).(type) {
+	case *ast.Ident:
+		return x
+	case *ast.SelectorExpr:
+		return x.Sel
+	}
+	return nil
 }
